@@ -4,9 +4,10 @@
     hard, soft or free; which conversions are sound); Reuse_MC explores every history of <= Depth actions per kind of
     results with every outcome the spec allows (results in use are never stale), an implementation-shaped module that
     compares every recorded label (refines the spec) and one with a forgotten guard (negative control). Its states are
-    the histories replayed on real results objects of six modules (hmm_detection, sideloader, nrps_pks_domains,
-    cluster_hmmer / full_hmmer, tta, pfam2go): to_json -> dumps -> loads -> regenerate_previous_results -> run_on_record ->
-    to_json, JSON texts and record effects digested; Reuse_Trace replays each history through the spec's actions and judges
+    the histories replayed on real results objects of seven modules (hmm_detection, sideloader, nrps_pks_domains,
+    cluster_hmmer / full_hmmer, tta, pfam2go, t2pks): add to record -> to_json -> dumps -> loads -> regenerate_previous_results
+    -> run_on_record -> add to record -> to_json, JSON texts and record effects digested (in interpreters with a fixed hash
+    seed, so that set-order leaks into JSON fail reproducibly); Reuse_Trace replays each history through the spec's actions and judges
     every regeneration. Plus seeded content sweeps (many results objects through two save / regenerate cycles) and seeded
     random histories of 6-14 actions.
 """
@@ -79,7 +80,9 @@ def rules_case(rng, tag):
     if rng.random() < 0.6:
         scene["hits"] = [rng.choice(c17.RICH_HITS) for _ in scene["locs"]]
     ruleset = c03.scale_rules(rng, c03.make_ruleset(rng, rule_catalogue(), rng.choice([1, 2, 3, 3])))
-    return {"tag": tag, "scene": scene, "rules": ruleset, "schema_target": rng.choice(["outer", "inner", "all"])}
+    # (derived from the tag, not drawn: keeps the random stream of the other kinds' cases unchanged)
+    subregion = zlib.crc32(tag.encode()) % 2 == 0
+    return {"tag": tag, "scene": scene, "rules": ruleset, "schema_target": rng.choice(["outer", "inner", "all"]), "subregion": subregion}
 
 
 def make_case(rng, kind, tag, gc=50):
@@ -300,12 +303,12 @@ def run(ctx):
             pool = pools[kind]
         case = pool[pick % len(pool)]
         env = env_for(kind, case, entry["env"]["fungi"])
-        items.append({"kind": kind, "env": env, "case": case, "hist": entry["hist"], "from": len(entry["hist"]), "sampled": False,
+        items.append({"kind": kind, "env": env, "case": case, "hist": entry["hist"], "from": len(entry["hist"]), "sampled": True,
                       "hashseed": 0})
     enumerated = len(items)
     # content sweep: many results objects through two save / regenerate cycles under unchanged settings
     seeds = [0] if ctx.quick else [0, 1, 2, 3]
-    sweep = 150 if ctx.quick else 6000
+    sweep = 150 if ctx.quick else 3000
     for kind in KINDS:
         for i in range(sweep):
             gc = rng.choice(GC_LEVELS)
@@ -315,7 +318,7 @@ def run(ctx):
             hist = [{"a": a, "c": c} for a in ("Run", "Save", "Regen", "Save", "Regen")]
             items.append({"kind": kind, "env": env, "case": case, "hist": hist, "from": 1, "sampled": True, "hashseed": i % len(seeds)})
     # random longer histories
-    walks = 100 if ctx.quick else 4000
+    walks = 100 if ctx.quick else 2000
     for kind in KINDS:
         for i in range(walks):
             gc = rng.choice(GC_LEVELS)
@@ -358,7 +361,7 @@ def run(ctx):
                                                             "from": item["from"]},
                                  "call": f"harness.reuse.replay({kind!r}, case, env, hist, workdir)  # actions: "
                                          + " ".join(step['a'] for step in hist),
-                                 "observed": [{k: step.get(k) for k in ("a", "o", "exc", "js", "ef", "summary")} for step in judged][-4:],
+                                 "observed": [{k: step.get(k) for k in ("a", "o", "exc", "msg", "js", "ef", "summary")} for step in judged][-4:],
                                  "features": features(kind, item["env"], hist, item["case"]), "sampled": item["sampled"]}
             stats["histories"] += 1
             stats["by_kind"][kind] = stats["by_kind"].get(kind, 0) + 1
@@ -373,7 +376,7 @@ def run(ctx):
             if len(samples) < 6 and (item["id"] % 997 == 0 or (item["sampled"] and kind not in samples)):
                 samples[kind if item["sampled"] else item["id"]] = {
                     "kind": kind, "actions": [step["a"] for step in hist],
-                    "steps": [{k: step.get(k) for k in ("a", "o", "exc", "js", "ef", "summary", "size")} for step in steps]}
+                    "steps": [{k: step.get(k) for k in ("a", "o", "exc", "msg", "js", "ef", "summary", "size")} for step in steps]}
         ctx.validate("Reuse_Trace", events, by_id, min_per_shard=300)
         del events, by_id, nested
     for kind, failed in stats["run_failed"].items():
@@ -389,14 +392,15 @@ def run(ctx):
                                   "trace_validation": round(time.time() - clock["cases_built"] - clock["replay_seconds"], 1)}
     for sample in samples.values():
         ctx.sample(sample)
-    ctx.exhaustive = True
+    ctx.exhaustive = False       # histories are enumerated exhaustively, the results objects they are replayed on are seeded samples
     ctx.rule = (f"every history of <= {depth} actions (Run, Save, Regenerate, change strictness / rule subset / fungal multipliers / "
-                "sideload arguments / schema version / record id / tighten or loosen the TTA or HMMer threshold) for six kinds of "
-                "results (hmm_detection, sideloader, nrps_pks_domains, cluster_hmmer+full_hmmer, tta, pfam2go; bacteria and fungi, five "
-                "GC levels) is replayed on real results objects built from seeded content (scenes with 4-7 genes and 1-3 rules, "
+                "sideload arguments / schema version / record id / tighten or loosen the TTA or HMMer threshold) for seven kinds of "
+                "results (hmm_detection, sideloader, nrps_pks_domains, cluster_hmmer+full_hmmer, tta, pfam2go, t2pks; bacteria and "
+                "fungi, five GC levels) is replayed on real results objects built from seeded content (scenes with 4-7 genes and 1-3 rules, "
                 "annotation files with origin-spanning areas, domain strings with cross-gene modules, hit tables with scores on "
-                f"the thresholds) and its last action judged; plus {sweep} seeded results objects per kind through two save / "
-                f"regenerate cycles and {walks} seeded random histories of 6-14 actions per kind with every action judged; "
+                f"the thresholds, type II PKS hit tables with several product classes) and its last action judged; plus {sweep} seeded results objects per kind through two save / "
+                f"regenerate cycles and {walks} seeded random histories of 6-14 actions per kind with every action judged, in "
+                f"interpreters started with PYTHONHASHSEED in {seeds}; "
                 "non-trivial = a judged regeneration returned results")
     ctx.notes.update({"enumerated_histories": enumerated, "content_sweep_per_kind": sweep, "random_histories_per_kind": walks,
                       "histories_replayed": stats["histories"], "regenerations_judged": stats["regenerations"],
